@@ -64,7 +64,7 @@ def order_bases(depth: int = 3) -> List[Tuple[str, List[Dict[str, Any]]]]:
             continue
         specs = D.specs_for(h, "a", "chrono")
         if specs is not None:
-            out.append((H.hist_str(h), specs))
+            out.append((("[depth 4] " if len(h) == 4 else "") + H.hist_str(h), specs))
     # a richer base: 3 IN, 2 OUT, 2 INTRA rows
     rich = ((H.B(1, 3), "="), (H.M(1, 0), "d"), (H.B(3, 2, fee="1/4"), "d"), (H.S(2), "200d"), (H.E(2, 1), "d"), (H.M(2, 1), "y"), (H.S(1, typ="GIFT"), "d"))
     specs = D.specs_for(rich, "a", "chrono")
@@ -106,7 +106,8 @@ def order_worker(chunk: List[Tuple[str, List[Dict[str, Any]]]]) -> Stats:
     st = Stats()
     cfg = P.config_for(P.canonical_layout())
     for label, specs in chunk:
-        for method in ("fifo", "hifo"):
+        # the depth-4 bases of the thorough tier (about 50 000) run under hifo only: the method decides nothing about the order in which rows are read
+        for method in ("hifo",) if label.startswith("[depth 4] ") else ("fifo", "hifo"):
             ref = None
             ref_label = ""
             variants = permuted_sheets(specs, limit=720)
